@@ -386,7 +386,8 @@ def run_check(pid, tier, seed, keep=False):
     mc_info, spec_scripts = [], []
     states = transitions = 0
     for job in P["mc"]:
-        r = vlib.tlc_mc(job["module"], job["cfg"], wd, workers=12, timeout=job["timeout"], simulate=job["simulate"],
+        r = vlib.tlc_mc(job["module"], job["cfg"], wd, workers=12, timeout=job["timeout"] if tier == "quick" else max(job["timeout"], 5400),
+                        simulate=job["simulate"],
                         seed=seed if job["simulate"] else None)
         if r["error"] or r["rc"] != 0:
             open(os.path.join(wd, "tlc-%s.out" % job["cfg"]), "w").write(r["out"])
